@@ -191,6 +191,11 @@ WIN_FIXED = [
      [[("rename", "W/d", "W/a"), ("rename", "W/a/dd", "W/dd")], [("rmdir", "W/a"), ("mkdir", "W/a"), ("create", "W/a/b")],
       [("rmdir", "W")]]),
     ([], [[("mkdir", "W/d"), ("create", "W/d/a"), ("rename", "W/d", "W/dd")], [("write", "W/dd/a"), ("chmod", "W/dd")]]),
+    # the same record twice in one read with something between that changes what the second one means
+    ([], [[("create", "W/a"), ("unlink", "W/a"), ("create", "W/a")], [("write", "W/a")]]),
+    ([("mkdir", "W/d"), ("create", "W/d/a")],
+     [[("rename", "W/d", "W/dd"), ("rename", "W/dd", "W/d"), ("rename", "W/d", "W/dd")], [("create", "W/dd/b")]]),
+    ([("mkdir", "W/d")], [[("rmdir", "W/d"), ("mkdir", "W/d"), ("rmdir", "W/d"), ("mkdir", "W/d")], [("create", "W/d/a")]]),
 ]
 
 
@@ -237,6 +242,8 @@ def win_adversarial(res, lean, r, n):
         init = pipe.gen_history(r, r.randint(3, 9), no_replace=True)
         rec = r.random() < 0.7
         recs = [(r.choice(["add", "rem", "mod", "old", "new", "add", "new"]), r.choice(names)) for _ in range(r.randint(1, 7))]
+        if len(recs) >= 2 and r.random() < 0.35:
+            recs.append(r.choice(recs[:-1]))          # a record identical to an earlier one of the same read
         if r.random() < 0.1:
             recs.append(("self", "W"))
         line = (f"winemit {int(rec)} - I {len(init)} " + " ".join(pipe.op_token(o) for o in init) +
